@@ -45,10 +45,11 @@ Example C10_open_region_program :
   o_ok (transl (fun _ => srev) open_prog) = false /\
   transl (fun _ => sid) open_prog = transl (fun _ => srev) open_prog /\
   o_funs (transl (fun _ => srev) open_prog) =
-    [(txt "fn"%string, [NDecl n_a 0; NDecl n_e 1; NDecl n_b 2; NDecl n_d 3;
+    [(txt "fn"%string, [NHoist n_a 0; NHoist n_e 1; NHoist n_b 2; NHoist n_d 3;
                         NIf [[NAssign n_e; NAssign n_a]; [NAssign n_d; NAssign n_a; NAssign n_b]]])] /\
   o_loop (transl (fun _ => srev) open_prog) =
-    [NDecl n_b 3; NDecl n_c 1; NTry [[NAssign n_cnd]; [NAssign n_c; NAssign n_b]]].
+    [NTry [[NAssign n_cnd]; [NAssign n_c; NAssign n_b]]] /\
+  o_globals (transl (fun _ => srev) open_prog) = [(n_cnd, 0); (n_b, 3); (n_c, 1)].
 Proof. exact open_prog_ok. Qed.
 Print Assumptions C10_open_region_program.
 
@@ -165,8 +166,8 @@ Print Assumptions C10_repair_conservative.
 
 Example C10_repair_conservative_nonvacuous :
   o_ok (transl_with (fun _ => sid) guarded_prog) = true /\
-  o_globals (transl_with (fun _ => sid) guarded_prog) = [(n_cnd, 0); (n_a, 0); (n_b, 1)] /\
-  o_loop (transl_with (fun _ => sid) guarded_prog) = [NDecl n_c 0; NDecl n_d 3; NWhile [NAssign n_c; NAssign n_d]].
+  o_globals (transl_with (fun _ => sid) guarded_prog) = [(n_cnd, 0); (n_a, 0); (n_b, 1); (n_c, 0); (n_d, 3)] /\
+  o_loop (transl_with (fun _ => sid) guarded_prog) = [NWhile [NAssign n_c; NAssign n_d]].
 Proof. exact guarded_prog_ok. Qed.
 Print Assumptions C10_repair_conservative_nonvacuous.
 
